@@ -160,6 +160,7 @@ pub struct World {
     pub swarm: J,
     pub log: u64,
     pub steps: u64,
+    pub tlogs: Vec<u64>,
 }
 
 pub struct S1;
@@ -279,7 +280,7 @@ impl Scenario for S1 {
             let real = guarded(|| Real::new(kind, &key, &nonce)).ok();
             tasks.push(Task { kind, key, nonce, spec, real, pos: 0, lazy: false, touched: false, failed: false });
         }
-        World { host, tasks, swarm: setup.get("swarm").cloned().unwrap_or(J::obj()), log: 0, steps: 0 }
+        World { host, tasks, swarm: setup.get("swarm").cloned().unwrap_or(J::obj()), log: 0, steps: 0, tlogs: vec![] }
     }
 
     fn gen_op(&self, w: &World, mix: &str, st: &mut Streams) -> Option<Op> {
@@ -438,12 +439,19 @@ impl Scenario for S1 {
             }
             _ => Step::Skip,
         };
+        if ti >= w.tlogs.len() {
+            w.tlogs.resize(ti + 1, 0);
+        }
+        w.tlogs[ti] = (w.tlogs[ti].rotate_left(7) ^ op.hash_nt()).wrapping_mul(0x9e37_79b9_7f4a_7c15) ^ result_hash;
         w.log = (w.log.rotate_left(7) ^ op.hash()).wrapping_mul(0x9e37_79b9_7f4a_7c15) ^ result_hash;
         r
     }
 
     fn log_digest(&self, w: &World) -> u64 {
         w.log
+    }
+    fn task_logs(&self, w: &World) -> Vec<u64> {
+        w.tlogs.clone()
     }
 
     fn shrink_setup(&self, setup: &J, ops: &[Op]) -> Vec<(J, Vec<Op>)> {
